@@ -126,6 +126,7 @@ type nodeOpts struct {
 	restrict  string            // netutil.ParseNetlist form; empty = no allow-list
 	key       *ecdsa.PrivateKey // optional: the node's identity (else drawn from the PRNG)
 	initCheck bool              // keep the table's init check (the production default): lookups wait for the first refresh
+	boot      []*enode.Node     // boot nodes the protocol is configured with
 }
 
 func startNode(mn *memNet, r *rand.Rand, o nodeOpts) *realNode {
@@ -142,6 +143,9 @@ func startNode(mn *memNet, r *rand.Rand, o nodeOpts) *realNode {
 	conf := portalwire.DefaultPortalProtocolConfig()
 	conf.MaxUtpConnSize = o.utpLimit
 	conf.ListenAddr = fmt.Sprintf("%s:%d", o.ip, o.port)
+	if o.boot != nil {
+		conf.BootstrapNodes = o.boot
+	}
 	if o.restrict != "" {
 		l, err := netutil.ParseNetlist(o.restrict)
 		if err != nil {
